@@ -38,3 +38,30 @@ _CONSTS.append(_tracing_const)
 @model('<Level as PartialOrd<LevelFilter>>::le', '<Level as PartialOrd<LevelFilter>>::lt', '<Level as PartialOrd>::le')
 def _tracing_le(I, ci, a, b):
     return False
+
+
+# ------------------------------------------------------------------ std::process::Command (C13: the git boundary function run from MIR)
+PROCESS_OUTPUT = [None]     # set by the harness: dict(success=bool|z3 Bool, stdout=[bytes], stderr=[bytes])
+
+
+@model('Command::new')
+def _cmd_new(I, ci, prog):
+    return Opaque('Command', dict(prog=prog, args=[], cwd=None))
+
+
+@model('Command::args', 'Command::arg', 'Command::current_dir', 'Command::env', 'Command::stdin', 'Command::stdout', 'Command::stderr')
+def _cmd_builder(I, ci, cmd, *a):
+    return cmd
+
+
+@model('Command::output')
+def _cmd_output(I, ci, cmd):
+    po = PROCESS_OUTPUT[0]
+    if po is None:
+        raise Unsupported('std::process::Command::output outside a process-stub harness')
+    return ok(Adt('Output', 0, [Opaque('ExitStatus', po['success']), VecObj(list(po['stdout'])), VecObj(list(po['stderr']))]))
+
+
+@model('ExitStatus::success')
+def _exit_success(I, ci, st):
+    return peel(st).state
